@@ -6,11 +6,11 @@ set_option linter.unusedVariables false
 namespace QG.Gen.Pulse
 open QG.Lemmas.NormalDist
 
-/-- `GaussianPulse._gaussian_pulse` (line 183), handed to `Pulse.__init__` as `pulse=` -/
+/-- `GaussianPulse._gaussian_pulse` (line 184), handed to `Pulse.__init__` as `pulse=` -/
 noncomputable def gaussianWaveform (loc scale x : ℝ) : ℝ :=
   ((normPdf x loc scale) / (if loc < ((1 : ℝ) / 2) then ((normSf (0 : ℝ) loc scale) - (normSf (1 : ℝ) loc scale)) else ((normCdf (1 : ℝ) loc scale) - (normCdf (0 : ℝ) loc scale))))
 
-/-- `GaussianPulse._gaussian_parametrization` (line 186), handed over as `parametrization=` -/
+/-- `GaussianPulse._gaussian_parametrization` (line 187), handed over as `parametrization=` -/
 noncomputable def gaussianParam (loc scale x : ℝ) : ℝ :=
   ((if loc < ((1 : ℝ) / 2) then ((normSf (0 : ℝ) loc scale) - (normSf x loc scale)) else ((normCdf x loc scale) - (normCdf (0 : ℝ) loc scale))) / (if loc < ((1 : ℝ) / 2) then ((normSf (0 : ℝ) loc scale) - (normSf (1 : ℝ) loc scale)) else ((normCdf (1 : ℝ) loc scale) - (normCdf (0 : ℝ) loc scale))))
 
@@ -28,7 +28,7 @@ def pulseEpsilonDen : ℕ := 1000000
 def pulseCheckNPoints : ℕ := 10
 /-- slack of the sampled monotonicity comparison of `Pulse._parametrization_is_valid` (`F(x+ε) >= F(x) - slack`) -/
 def pulseMonoTolNum : ℕ := 1
-def pulseMonoTolDen : ℕ := 1000000000000
+def pulseMonoTolDen : ℕ := 500000000000
 
 /-- `ConstantPulse`: `pulse=one`, `parametrization=identity`, `perform_checks=False`, `use_lookup=True` -/
 noncomputable def constantPulseWaveform (x : ℝ) : ℝ := (1 : ℝ)
